@@ -4,7 +4,7 @@ CONSTANTS
  T = 2
  NV = 1
  Cmds = {1, 2, 3}
- RepostAppends = TRUE
+ RepostAppends = FALSE
  Defect = "none"
  Honest = {1, 2}
  Args <- ArgsCore
@@ -20,7 +20,7 @@ CONSTANTS
  MaxChain = 0
  InitSt <- IActive
  Policy = "free"
-INVARIANTS Safety Robust
+INVARIANTS Safety Robust StoreDistinct EnoughIsEnough AnsweredOnlyAtThreshold
 PROPERTIES MCDeleteOnlyOwn MCRefusedNoEffect
 VIEW View
 CHECK_DEADLOCK FALSE
